@@ -59,6 +59,7 @@ class E1Check(runner.Check):
     bounds_thorough = dict(N=4, M=3, K=8, enc_k=2, state_cap=4000, parts=4)
     exotic = True
     labeler = staticmethod(values.default_label)
+    _last = None
 
     # ---- to be provided by subclasses
     def alphabet(self, T, tvs, tier):
@@ -151,8 +152,10 @@ class E1Check(runner.Check):
                             if not trivial(got[1]):
                                 st.nontrivial += 1
                         else:
+                            self._last = (evalue, got[1])
                             self._viol(st, "value", T, tvs, d, names, opname, args,
                                        "expected %r, got %r" % (evalue, got[1]))
+                            self._last = None
                     elif ekind == "error" and got[0] == "error":
                         st.outcome("%s:error-as-required" % opname)
                         st.nontrivial += 1
